@@ -135,6 +135,9 @@ def build():
     def t_get_status(interp, recv, args, kwargs):
         ctx = interp.ctx
         ctx.events.append(("get_status", recv))
+        if "CLOCK" in ctx.ghost and isinstance(recv, Sym):
+            # (part 1: get_status(timeout) starts the tracker's completion clock if it is not running, and compares with it)
+            ctx.ghost["CLOCK"] = Sym(ctx.ghost["CLOCK"].kind, z3.Store(ctx.ghost["CLOCK"].term, recv.term, True))
         k = ctx.choose(3, "head-status")
         st = ("Pending", "Done", "Error")[k]
         ctx.ghost["STATUS:%s" % recv.term] = st
@@ -343,13 +346,32 @@ def build():
         return t
 
     p.models["jobsset_iter.__next__"] = jobsset_next
-    p.write_hooks[("TRef", "_completion_timeout_counter")] = lambda interp, obj, attr, v: interp.ctx.events.append(("reset-timeout-counter", obj))
+    def reset_clock(interp, obj, attr, v):
+        ctx = interp.ctx
+        ctx.events.append(("reset-timeout-counter", obj))
+        if "CLOCK" in ctx.ghost and v is None and isinstance(obj, Sym):
+            ctx.ghost["CLOCK"] = Sym(DSET, z3.Store(ctx.ghost["CLOCK"].term, obj.term, False))
 
-    GHU = dict(NY=INT, DELIVERED=DSET, ERRQ=BOOL)
+    p.write_hooks[("TRef", "_completion_timeout_counter")] = reset_clock
+
+    # C04 / C16 (timeout in completion order): the clock of a job runs only while that job is the timeout control.  A job dropped as control
+    # with its clock still running, and picked again later, would carry the time stamp of its FIRST pick: TimeoutError although a new
+    # result arrived every few milliseconds (seeded change C16-control-job-clock-not-reset)
+    def only_control_clock(interp, control):
+        g = interp.ctx.ghost
+        t = z3.Const("t!clk", TRef.sort())
+        if control is None:
+            return ops.mk_bool(z3.ForAll([t], z3.Not(z3.Select(g["CLOCK"].term, t))))
+        return ops.mk_bool(z3.ForAll([t], z3.Implies(z3.Select(g["CLOCK"].term, t), t == control.term)))
+
+    p.spec_funcs["only_the_control_jobs_clock_runs"] = only_control_clock
+
+    GHU = dict(NY=INT, DELIVERED=DSET, ERRQ=BOOL, CLOCK=DSET)
 
     def setup_u(interp, env):
         setup(interp, env)
         interp.ctx.ghost["ORDERED"] = False
+        interp.ctx.ghost["CLOCK"] = Sym(DSET, z3.K(TRef.sort(), z3.BoolVal(False)))   # no clock runs when retrieval starts
 
     p.add(Contract(
         PAR, "Parallel._retrieve", variant="unordered", props=["C16", "C01", "C04"], ghost=GHU, setup=setup_u, generator=True,
@@ -362,12 +384,14 @@ def build():
                     invariant={"queued_jobs_undelivered_and_distinct": "jobs_fresh(self)", "lock_free": "lock_depth() == 0",
                                # C04 (timeout in completion order): while nothing is ready the clock that is consulted must belong to a job the
                                # caller is still waiting for - never to one whose results were already handed over (it would never expire)
-                               "the_timeout_clock_watches_a_job_still_waited_for": "timeout_control_job is None or not delivered(timeout_control_job)"},
+                               "the_timeout_clock_watches_a_job_still_waited_for": "timeout_control_job is None or not delivered(timeout_control_job)",
+                               "a_job_picked_as_control_starts_with_a_fresh_clock": "only_the_control_jobs_clock_runs(timeout_control_job)"},
                     kinds={"batched_results": TRef, "timeout_control_job": Opt(TRef)},
-                    havoc=["ghost:NY"]),
+                    havoc=["ghost:NY", "ghost:CLOCK"]),
             2: Loop("for result in batched_results",
                     invariant={"yields_in_item_order": "NY == lo_of(popped()) + _i", "rest_of_jobs": "jobs_fresh(self)", "batch_marked_delivered": "delivered(popped())",
-                               "the_timeout_clock_watches_a_job_still_waited_for": "timeout_control_job is None or not delivered(timeout_control_job)"},
+                               "the_timeout_clock_watches_a_job_still_waited_for": "timeout_control_job is None or not delivered(timeout_control_job)",
+                               "a_job_picked_as_control_starts_with_a_fresh_clock": "only_the_control_jobs_clock_runs(timeout_control_job)"},
                     havoc=["ghost:NY"]),
         },
     ))
